@@ -643,7 +643,7 @@ def main():
     rep = _lib.Report(bound=BOUND, rule="case = (generator, parameterisation tag, batch size, seed); every case generates one batch with the real generator, checks all "
                       "range/shape clauses on every row, then runs one random rollout on the real env; distinct = distinct (generator, tag, batch size, seed)", max_violations=25)
     only = set(filter(None, a.only.split(",")))
-    budget = a.budget or (560 if T else 55)
+    budget = a.budget or (3000 if T else 600)   # guard against hangs; wall-clock, far above the normal run time so that a loaded machine does not truncate the grid
     skipped = 0
     for i, (env, tag, cfg) in enumerate(G):
         if only and env not in only:
